@@ -65,6 +65,11 @@ CHECKS = {
    text="Create in Set is shown to be reachable only after the group evaluation returned nil on the incoming metadata; every granting path of the evaluation is shown to depend on an equality of a non-empty caller group with a configured group (or on the absence of all identity metadata); the target listing under authorization is shown to depend on the two documented equalities.",
    note="Trusted: as C02. The substring/empty-group defect found here was repaired (fix commit def6732). Not covered: token validation, OPA.",
    ref="DESIGN.md §3 C14"),
+ "C15": dict(
+   technique="argument rule on primitive updates (IfVersion of the version read), ownership of Version/Index/Revision writes, listener-before-snapshot order on Watch paths, channel typestate (close-once, no send after close) and shared-dispatcher select rule on watch goroutines, lock pairing",
+   text="For the five stores: every primitive update is shown to be conditional on the version read for the very record written; versions and log indexes are shown to come from the primitive only; Watch is shown to register its listener before any snapshot read; watch goroutines are shown not to close twice, not to send after close, to guard every subscriber send with ctx.Done() behind a shared dispatcher, and to pair every lock. Linearizability and delivery are not decided.",
+   note="Trusted: go/types, the occheck path enumerator (no inlining in store packages), the rule code. The double close of the v3 transaction store and the bare forwards of four stores found here were repaired (fix commits bf36202, e48fc62, 61b4e7b). Not covered: exits of a watch goroutine during replay that do not drain the per-watch channel (observed, documented in DESIGN.md, no rule).",
+   ref="DESIGN.md §3 C15"),
 }
 
 def main():
